@@ -1005,6 +1005,47 @@ func c13NewlineFlag(c *Ctx) {
 			c.undecided("R6", "statement-end-remembered", p.Pos(ase.Pos()), fmt.Sprintf("%d tests of atStatementEnd's answer found, 4 confirmed by hand", k))
 		}
 	}
+	// a recorded statement end stays recorded: advance() clears the flag on every cursor move, so after
+	// `didEndStatement = true` no call that passes the parser on is executed before the function returns
+	// (setting the flag and *then* consuming the closing brace loses it unless a line break follows)
+	{
+		nSet := 0
+		adv := p.LangFunc("(*Parser).advance")
+		for _, f := range p.Funcs {
+			if !p.InLang(f) || f == adv {
+				continue
+			}
+			for _, st := range storesToField(f, "Parser", "didEndStatement", false) {
+				if b, isC := constBool(st.Val); !isC || !b {
+					continue
+				}
+				nSet++
+				lost := ""
+				for _, call := range callsIn(f) {
+					passes := false
+					for _, a := range call.Common().Args {
+						if pt, ok := a.Type().(*types.Pointer); ok && isLangNamed(pt.Elem(), "Parser") {
+							passes = true
+						}
+					}
+					if !passes || staticCalleeIs(call, "(*lang.Parser).error") {
+						continue
+					}
+					after := call.Block() == st.Block() && instrIndex(call) > instrIndex(st)
+					if !after && call.Block() != st.Block() && reachableFrom(st.Block().Succs, nil)[call.Block()] {
+						after = true
+					}
+					if after {
+						lost = p.InstrPos(call)
+					}
+				}
+				c.check(lost == "", "R6", fmt.Sprintf("statement-end-kept #%d in %s", nSet, shortName(f)), p.InstrPos(st), "no cursor move follows the recording of the statement end", "after the statement end is recorded the parser moves on ("+lost+"): advance() clears the flag, so the record survives only when a line break follows — `{ … } stmt` on one line is a syntax error while the same tokens on two lines parse")
+			}
+		}
+		if nSet < 3 {
+			c.undecided("R6", "statement-end-kept", "", fmt.Sprintf("%d stores of `didEndStatement = true` outside advance found, 4 confirmed by hand", nSet))
+		}
+	}
 	allowed := map[string]bool{"(*lang.Parser).block": true, "(*lang.Parser).statement": true, "(*lang.Parser).printStatement": true}
 	callers := map[string]int{}
 	for _, cs := range p.CallSitesOf(ase) {
